@@ -499,7 +499,8 @@ def apply_action(ctx, cell, action, tag):
         if action == "md_empty_add":
             md["blank"] = ""
         else:
-            md[sorted(md)[0] if md else "blank"] = ""
+            free = [k for k in sorted(md) if k not in ("collapsed", "scrolled", "tags", "lol", "2024", "note")]
+            md[free[0] if free else "blank"] = ""
         c["metadata"] = md
         return [c]
     if action == "md_del":
